@@ -8,7 +8,9 @@ from checks.ipcommon import REAL_IP, STUB_IP, execute_filtered, rnd_time
 PROP = "C08"
 LEVEL = "exploration"
 RULE = (
-    "one run = real IpPairing on the simulated network; 1-4 concurrent callers issue get/put/list with unique id sets "
+    "first, every interleaving word of depth <= 3 (quick, 819 words) / <= 4 (thorough, 7380) over {request, two concurrent requests, event burst, cancelled "
+    "request, 30 s time-out, peer FIN, peer RST, unsolicited response, response delivered byte by byte}, letters 0.4 s apart so that each lands inside the "
+    "effects of the previous ones, is executed once; then seeded runs: one run = real IpPairing on the simulated network; 1-4 concurrent callers issue get/put/list with unique id sets "
     "(reads are tagged by the accessory with the serial number of the request they answer); per-run swarm profile picks "
     "latency, segmentation style, response delays around the 30 s timer, stalls, truncation-by-close, EVENT bursts "
     "interleaved anywhere, caller cancellations / own timeouts at chosen instants, peer FIN/RST, unsolicited responses "
@@ -24,7 +26,62 @@ ASSUMPTIONS = [
 TIERS = {"quick": {"runs": 20000, "wall": 55}, "thorough": {"runs": 400000, "wall": 1500}}
 
 
-def gen_plan(seed: int, tier: str) -> dict:
+# ---- enumerated short interleavings: every word of depth <= 3 (quick) / <= 4 (thorough) over the property's alphabet ------------
+ALPHA = ["request", "two_requests", "event", "cancel", "timeout", "peer_fin", "peer_rst", "unsolicited", "request_pieces"]
+
+
+def _words(depth):
+    import itertools
+
+    return [w for d in range(1, depth + 1) for w in itertools.product(ALPHA, repeat=d)]
+
+
+ENUM3 = _words(3)
+ENUM4 = ENUM3 + [w for w in _words(4) if len(w) == 4]
+
+
+def enum_plan(word) -> dict:
+    """letters are 0.4 s apart, so a letter lands while the effects of the previous ones (a stalled request, a pending
+    close, a reconnect) are still in progress; 'timeout' stalls the accessory for 31 s after its request"""
+    ops = [{"op": "get", "ids": [[1, 10]], "t": 0.0}]
+    t = 1.0
+    k = 0
+    for a in word:
+        k += 1
+        ids = [[1, 10 + k]]
+        if a == "request":
+            ops.append({"op": "get", "ids": ids, "t": t})
+        elif a == "two_requests":
+            ops.append({"op": "get", "ids": ids, "t": t})
+            ops.append({"op": "put", "items": [[2, 12 + k, k]], "t": t})
+        elif a == "event":
+            ops.append({"op": "event", "n": 2, "ids": [[1, 10]], "raw": None, "t": t})
+        elif a == "cancel":
+            ops.append({"op": "get", "ids": ids, "t": t, "cancel_after": 0.001})
+        elif a == "timeout":
+            ops.append({"op": "stall", "on": True, "t": t})
+            ops.append({"op": "get", "ids": ids, "t": round(t + 0.001, 3)})
+            ops.append({"op": "stall", "on": False, "t": round(t + 31.0, 3)})
+        elif a in ("peer_fin", "peer_rst"):
+            ops.append({"op": a[5:], "t": t})
+        elif a == "unsolicited":
+            ops.append({"op": "unsolicited", "t": t})
+        elif a == "request_pieces":
+            ops.append({"op": "get", "ids": ids + [[2, 20 + k]], "t": t})
+        t = round(t + 0.4, 3)
+    profile = {"hosts": [["10.0.0.1", "genuine"]], "lat": [0.002, 0.002], "seg": "bytes" if "request_pieces" in word else "whole", "gap": 0.001 if "request_pieces" in word else 0.0,
+               "frame": "max", "n_chars": 24}
+    heal_at = t + 70.0
+    return {"profile": profile, "ops": sorted(ops, key=lambda o: o["t"]), "listeners": {"L0": {}}, "heal_at": heal_at, "end_at": heal_at + 80.0, "heal_probe": 2, "enumerated": list(word)}
+
+
+def gen_plan(seed: int, tier: str, enumerate_first: bool = True) -> dict:
+    from simkit.harness import SEED_STRIDE
+
+    idx = seed % SEED_STRIDE
+    enum = ENUM3 if tier == "quick" else ENUM4
+    if enumerate_first and idx < len(enum):
+        return enum_plan(enum[idx])
     r = random.Random(seed)
     faulty = r.random() < 0.85
     profile = {
